@@ -128,5 +128,107 @@ theorem gen_ProveTree_eq_PROOF (fuel : Nat) (D : List Bytes) (st : List H) (hst 
     Props.C03.proveTree_eq_PROOF_of_storeOK leaf node empty D st hst t n h1 hn ht (by omega)]
   rfl
 
+omit [DecidableEq H] [Inhabited H] in
+theorem pathF_length_le : ∀ f m (X : List H), (RFC6962.pathF node empty f m X).length ≤ f := by
+  intro f
+  induction f with
+  | zero => intro m X; simp [RFC6962.pathF]
+  | succ f ih =>
+    intro m X
+    unfold RFC6962.pathF
+    split
+    · simp
+    · simp only []
+      split
+      · have := ih m (X.take (RFC6962.splitPoint X.length)); simp; omega
+      · have := ih (m - RFC6962.splitPoint X.length) (X.drop (RFC6962.splitPoint X.length)); simp; omega
+
+omit [DecidableEq H] [Inhabited H] in
+theorem subProofF_length_le : ∀ f m (X : List H) b, (RFC6962.subProofF node empty f m X b).length ≤ f := by
+  intro f
+  induction f with
+  | zero => intro m X b; simp [RFC6962.subProofF]
+  | succ f ih =>
+    intro m X b
+    unfold RFC6962.subProofF
+    split
+    · split <;> simp
+    · simp only []
+      split
+      · have := ih m (X.take (RFC6962.splitPoint X.length)) b; simp; omega
+      · have := ih (m - RFC6962.splitPoint X.length) (X.drop (RFC6962.splitPoint X.length)) false; simp; omega
+
+/-- ★ C03, first sentence, END TO END on the regenerated code: the proof produced by the regenerated `ProveRecord` for
+    record `n` of the whole log is accepted by the regenerated `CheckRecord` against the RFC 6962 root. -/
+theorem gen_proveRecord_accepted (fuel : Nat) (D : List Bytes) (st : List H) (hst : StoreOK leaf node empty D st)
+    (r : List Int → List H × Option String) (hr : readerOf r = storeReader st)
+    (n : Nat) (hn : n < D.length) (hD : D.length ≤ 2 ^ 62) (hf : D.length + 127 ≤ fuel) :
+    ∃ p, Generated.Tlog.ProveRecord node fuel D.length n r = .ok (p, none) ∧
+      Generated.Tlog.CheckRecord node fuel p D.length (RFC6962.mth node empty (D.map leaf)) n (leaf D[n]) = .ok none := by
+  refine ⟨_, gen_ProveRecord_eq_PATH leaf node empty fuel D st hst r hr D.length n hn (Nat.le_refl _) hD hf, ?_⟩
+  have : (D.map leaf).take D.length = D.map leaf := by
+    rw [List.take_of_length_le]; simp
+  rw [this]
+  have hlen : (RFC6962.path node empty n (D.map leaf)).length < 2 ^ 63 := by
+    have := pathF_length_le node empty (D.map leaf).length n (D.map leaf)
+    unfold RFC6962.path
+    simp only [List.length_map] at this ⊢
+    omega
+  rw [CheckRecord_tie node fuel _ _ _ _ _ (by omega) hlen (by omega),
+    Props.C03.checkRecord_complete leaf node empty D n hn (by omega)]
+  rfl
+
+/-- ★ … and the proof produced by the regenerated `ProveTree` for "tree `n` is a prefix of the whole log" is accepted by
+    the regenerated `CheckTree` against the two RFC 6962 roots. -/
+theorem gen_proveTree_accepted (fuel : Nat) (D : List Bytes) (st : List H) (hst : StoreOK leaf node empty D st)
+    (r : List Int → List H × Option String) (hr : readerOf r = storeReader st)
+    (n : Nat) (h1 : 1 ≤ n) (hn : n ≤ D.length) (hD : D.length ≤ 2 ^ 62) (hf : D.length + 127 ≤ fuel) :
+    ∃ p, Generated.Tlog.ProveTree node fuel D.length n r = .ok (p, none) ∧
+      Generated.Tlog.CheckTree node fuel p D.length (RFC6962.mth node empty (D.map leaf)) n
+        (RFC6962.mth node empty ((D.map leaf).take n)) = .ok none := by
+  refine ⟨_, gen_ProveTree_eq_PROOF leaf node empty fuel D st hst r hr D.length n h1 hn (Nat.le_refl _) hD hf, ?_⟩
+  have : (D.map leaf).take D.length = D.map leaf := by
+    rw [List.take_of_length_le]; simp
+  rw [this]
+  have hlen : (RFC6962.proof node empty n (D.map leaf)).length < 2 ^ 63 := by
+    have := subProofF_length_le node empty ((D.map leaf).length + 1) n (D.map leaf) true
+    unfold RFC6962.proof
+    simp only [List.length_map] at this ⊢
+    omega
+  rw [CheckTree_tie node fuel _ _ _ _ _ (by omega) hlen (by omega),
+    Props.C03.checkTree_complete leaf node empty D n h1 hn (by omega)]
+  rfl
+
 end
+
+/-! ### non-vacuity: the hypotheses are satisfiable (13-record log in the term algebra, honest reader `genReader`) -/
+
+example : ∃ st, StoreOK TH.leaf TH.node TH.empty (recs 13) st ∧ readerOf (genReader st) = storeReader st ∧
+    (2 : Nat) < 7 ∧ 7 ≤ (recs 13).length ∧ (7 : Nat) ≤ 2 ^ 62 := by
+  obtain ⟨st, _, h2⟩ := Props.C09.store_invariant TH.leaf TH.node TH.empty (recs 13) (by decide)
+  exact ⟨st, h2, readerOf_genReader st, by decide, by decide, by decide⟩
+
+/-- both sides of `gen_ProveRecord_eq_PATH` / `gen_proveRecord_accepted` evaluated on this instance -/
+example :
+    okIs (Generated.Tlog.ProveRecord TH.node 140 13 2 (genReader (store 13)))
+      (RFC6962.path TH.node TH.empty 2 ((recs 13).map TH.leaf), none) = true ∧
+    okIs (Generated.Tlog.CheckRecord TH.node 140 (RFC6962.path TH.node TH.empty 2 ((recs 13).map TH.leaf)) 13 (root 13) 2
+      (TH.leaf [2])) none = true ∧
+    okIs (Generated.Tlog.ProveTree TH.node 140 13 5 (genReader (store 13)))
+      (RFC6962.proof TH.node TH.empty 5 ((recs 13).map TH.leaf), none) = true ∧
+    okIs (Generated.Tlog.CheckTree TH.node 140 (RFC6962.proof TH.node TH.empty 5 ((recs 13).map TH.leaf)) 13 (root 13) 5
+      (root 5)) none = true := by decide +kernel
+
+/-- `gen_mutation_rejected_record` applies to a forged one-hash proof for record 2 of the 7-record log -/
+example : Generated.Tlog.CheckRecord TH.node 7 [TH.junk 0] (recs 7).length (root 7) 2 (TH.leaf [2]) =
+    .ok (some "errProofFailed") :=
+  gen_mutation_rejected_record TH.leaf TH.node TH.empty Props.C03.cf_term_algebra 7 (recs 7) [TH.junk 0] 2 (TH.leaf [2])
+    (by decide) (by decide) (by decide) (by decide) (Or.inl (by decide +kernel))
+
+/-- `gen_CheckRecord_iff` on an accepted tuple -/
+example : Generated.Tlog.CheckRecord TH.node 7 (RFC6962.path TH.node TH.empty 2 ((recs 7).map TH.leaf)) 7 (root 7) 2
+    (TH.leaf [2]) = .ok none :=
+  (gen_CheckRecord_iff TH.node 7 _ 7 2 (root 7) (TH.leaf [2]) (by omega) (by decide +kernel) (by decide)).mpr
+    ⟨by omega, by omega, by decide +kernel⟩
+
 end ModVerif.Tie.FnTlogProofC03
